@@ -241,7 +241,8 @@ pub fn locally_rejected(op: &FeOp, st: &FeState) -> bool {
         FeOp::GetProtocolFeatures | FeOp::SetProtocolFeatures(_) => st.offered_vf & spec::VIRTIO_F_PROTOCOL_FEATURES == 0,
         FeOp::SetVringEnable(q, _) => st.acked_vf & spec::VIRTIO_F_PROTOCOL_FEATURES == 0 || *q as u64 >= st.max_queue,
         FeOp::SetVringNum(q, _) | FeOp::SetVringBase(q, _) | FeOp::GetVringBase(q) => *q as u64 >= st.max_queue,
-        FeOp::SetVringCall(q) | FeOp::SetVringKick(q) | FeOp::SetVringErr(q) => *q as u64 >= st.max_queue,
+        // the descriptor messages carry the ring index in 8 bits: an index that cannot arrive unchanged must be refused
+        FeOp::SetVringCall(q) | FeOp::SetVringKick(q) | FeOp::SetVringErr(q) => *q as u64 >= st.max_queue || *q > 255,
         FeOp::SetVringAddr { q, flags, .. } => *q as u64 >= st.max_queue || flags & !1 != 0,
         FeOp::SetMemTable(rs) => rs.is_empty() || rs.len() > 32 || rs.iter().any(region_invalid_local),
         FeOp::AddMemRegion(r) | FeOp::RemoveMemRegion(r) => region_invalid_local(r),
